@@ -3,7 +3,8 @@
    Function literals anywhere (inside function bodies and blocks: factories), closures by reference with `modify`
    writes through the captured cell, function values returned, stored, passed as arguments and called through a
    variable, `self(..)`.  Statements: assignment, modify, op-assignment, print, assert, expression statements, if,
-   if / else, else-if, while, from (named fresh counter, step 1), break, continue, return (with and without a value).  Expressions: calls anywhere -- operands of arithmetic and comparisons, of && || !
+   if / else, else-if, while, from loops of every form (named fresh / colliding / anonymous counter, step), break, continue,
+   return (with and without a value).  Expressions: calls anywhere -- operands of arithmetic and comparisons, of && || !
    (short-circuit over calls), of `(a) or b` and `get a`, arguments of calls.
 
      kind            the static kinds: KD (a first-order value) / KF ps r (a function taking ps, returning r) /
@@ -124,6 +125,33 @@ Proof.
   change (endsret (x :: (y :: l) ++ [st])) with (endsret ((y :: l) ++ [st])). apply IH.
 Qed.
 
+(* no function literal inside (the step expression of a `from` loop) *)
+Fixpoint noefn (e : expr) {struct e} : bool :=
+  let fix go (l : list expr) : bool := match l with [] => true | a :: l => noefn a && go l end in
+  match e with
+  | EFn _ _ => false
+  | EBin _ a b | EAnd a b | EOr a b | ENilOr a b => noefn a && noefn b
+  | ENot a | ENeg a | EGet a _ => noefn a
+  | ECall f l => noefn f && go l
+  | ESelf l => go l
+  | _ => true
+  end.
+
+(* the names a statement may bind: assigned names and loop counters, at any depth (a step expression of a `from` loop may read a
+   captured variable none of these shadows: the step runs while the frame of the body is still there) *)
+Fixpoint asg (st : stmt) {struct st} : list str :=
+  match st with
+  | SAssign x _ => [x]
+  | SIf _ body | SWhile _ body => flat_map asg body
+  | SIfElse _ body els => flat_map asg body ++ flat_map asg els
+  | SIfElif _ body nxt => flat_map asg body ++ asg nxt
+  | SFrom _ _ _ _ nm _ body => match nm with Some x => [x] | None => [] end ++ flat_map asg body
+  | _ => []
+  end.
+Definition asgl (l : list stmt) : list str := flat_map asg l.
+Definition step_free (B : kctx) (body : list stmt) (e : expr) : bool :=
+  forallb (fun y => mem_str y (map fst B) || negb (mem_str y (asgl body))) (used_e e).
+
 Definition kres := option (kctx * list kind).       (* the locals afterwards, the kinds of the values returned *)
 
 Definition sfk := option (list kind * kind).     (* inside a function: the kinds of its parameters and of its result (for self(..)) *)
@@ -213,14 +241,29 @@ with kstmt (SF : sfk) (il : bool) (B CD : kctx) (s : stmt) {struct s} : kres :=
     else None
   | SWhile c body =>
     if is_KD (kexpr SF B CD c) then match kb true B body with Some (_, r) => Some (B, r) | None => None end else None
-  | SFrom a b incl None (Some x) false body =>
-    if ok_dexpr B CD a && ok_dexpr B CD b && src_nameb x && negb (mem_str x (map fst B)) && negb (mem_str x (used_e b)) then
-      match kb true ((x, KD) :: B) body with Some (_, r) => Some (B, r) | None => None end
-    else None
+  | SFrom a b incl step name collide body =>
+    (* the step: a call-free expression over data variables; it runs inside the frame of the body, so the captured ones it reads
+       are not bound anywhere in the body *)
+    let kstep := fun B' => match step with None => true | Some e => ok_dexpr B' CD e && step_free B' body e end in
+    match name, collide with
+    | Some x, false =>   (* a fresh counter: a variable of the enclosing block for the duration of the loop *)
+      if is_KD (kexpr SF B CD a) && ok_dexpr B CD b && src_nameb x && negb (mem_str x (map fst B)) && negb (mem_str x (used_e b)) &&
+         kstep ((x, KD) :: B) then
+        match kb true ((x, KD) :: B) body with Some (_, r) => Some (B, r) | None => None end
+      else None
+    | Some x, true =>    (* the counter is an existing local variable (the upper bound mentions no variable) *)
+      if is_KD (kexpr SF B CD a) && ok_dexpr B CD b && src_nameb x && is_KD (assoc x B) && match used_e b with [] => true | _ => false end && kstep B then
+        match kb true B body with Some (_, r) => Some (B, r) | None => None end
+      else None
+    | None, false =>     (* a hidden counter: the upper bound may contain calls *)
+      if is_KD (kexpr SF B CD a) && is_KD (kexpr SF B CD b) && kstep B then
+        match kb true B body with Some (_, r) => Some (B, r) | None => None end
+      else None
+    | None, true => None
+    end
   | SBreak | SContinue => if il then Some (B, []) else None
   | SReturn None => Some (B, [KN])
   | SReturn (Some e) => match kexpr SF B CD e with Some k => Some (B, [k]) | None => None end
-  | _ => None
   end.
 
 Fixpoint kblock (SF : sfk) (il : bool) (B CD : kctx) (l : list stmt) {struct l} : kres :=
@@ -334,14 +377,63 @@ Proof. intros. cbn [kstmt]. now rewrite !kblock_fix. Qed.
 Lemma kstmt_SWhile : forall SF il B CD c body, kstmt SF il B CD (SWhile c body) =
   if is_KD (kexpr SF B CD c) then match kblock SF true B CD body with Some (_, r) => Some (B, r) | None => None end else None.
 Proof. intros. cbn [kstmt]. now rewrite kblock_fix. Qed.
-Lemma kstmt_SFrom : forall SF il B CD a b incl x body, kstmt SF il B CD (SFrom a b incl None (Some x) false body) =
-  if ok_dexpr B CD a && ok_dexpr B CD b && src_nameb x && negb (mem_str x (map fst B)) && negb (mem_str x (used_e b)) then
-    match kblock SF true ((x, KD) :: B) CD body with Some (_, r) => Some (B, r) | None => None end
-  else None.
-Proof. intros. cbn [kstmt]. now rewrite kblock_fix. Qed.
+Definition kstep (SF : sfk) (B CD : kctx) (body : list stmt) (step : option expr) : bool :=
+  match step with None => true | Some e => ok_dexpr B CD e && step_free B body e end.
+Lemma ok_dexpr_locals : forall B CD e, ok_dexpr B [] e = true -> ok_dexpr B CD e = true.
+Proof.
+  intros B CD e H. unfold ok_dexpr in *. rewrite !andb_true_iff in *. destruct H as [[Hp Hl] Hu]. split; [split; assumption|].
+  rewrite forallb_forall in *. intros x Hx. specialize (Hu x Hx). apply andb_true_iff in Hu as [H1 H2]. rewrite H1. cbn [andb].
+  unfold kvar in *. destruct (assoc x B); [exact H2|discriminate H2].
+Qed.
+Lemma kstmt_SFrom : forall SF il B CD a b incl step name collide body, kstmt SF il B CD (SFrom a b incl step name collide body) =
+  match name, collide with
+  | Some x, false =>
+    if is_KD (kexpr SF B CD a) && ok_dexpr B CD b && src_nameb x && negb (mem_str x (map fst B)) && negb (mem_str x (used_e b)) &&
+       kstep SF ((x, KD) :: B) CD body step then
+      match kblock SF true ((x, KD) :: B) CD body with Some (_, r) => Some (B, r) | None => None end
+    else None
+  | Some x, true =>
+    if is_KD (kexpr SF B CD a) && ok_dexpr B CD b && src_nameb x && is_KD (assoc x B) && match used_e b with [] => true | _ => false end && kstep SF B CD body step then
+      match kblock SF true B CD body with Some (_, r) => Some (B, r) | None => None end
+    else None
+  | None, false =>
+    if is_KD (kexpr SF B CD a) && is_KD (kexpr SF B CD b) && kstep SF B CD body step then
+      match kblock SF true B CD body with Some (_, r) => Some (B, r) | None => None end
+    else None
+  | None, true => None
+  end.
+Proof. intros SF il B CD a b incl step [x|] [|] body; cbn [kstmt]; rewrite ?kblock_fix; reflexivity. Qed.
+
+Lemma ok_dexpr_kexpr : forall SF B CD e, ok_dexpr B CD e = true -> kexpr SF B CD e = Some KD.
+Proof. intros SF B CD e H. rewrite kexpr_eq, H. reflexivity. Qed.
+Lemma is_KD_eq : forall o, is_KD o = true -> o = Some KD.
+Proof. intros [[| |]|] H; try discriminate; reflexivity. Qed.
+(* what the checker says about the parts of a from loop, whatever its form *)
+Lemma kstmt_SFrom_parts : forall SF il B CD a b incl step name collide body r, kstmt SF il B CD (SFrom a b incl step name collide body) = Some r ->
+  kexpr SF B CD a = Some KD /\ kexpr SF B CD b = Some KD /\
+  exists Bb, (exists rb, kblock SF true Bb CD body = Some rb) /\ forall e, step = Some e -> kexpr SF Bb CD e = Some KD.
+Proof.
+  intros SF il B CD a b incl step name collide body r H. rewrite kstmt_SFrom in H.
+  destruct name as [x|]; destruct collide; try discriminate.
+  - destruct (is_KD (kexpr SF B CD a) && ok_dexpr B CD b && src_nameb x && is_KD (assoc x B) && match used_e b with [] => true | _ => false end && kstep SF B CD body step) eqn:Hc; [|discriminate].
+    rewrite !andb_true_iff in Hc. destruct Hc as [[[[[Ha Hb] _] _] _] Hs].
+    split; [now apply is_KD_eq|]. split; [now apply ok_dexpr_kexpr|]. exists B. split.
+    + destruct (kblock SF true B CD body) as [rb|]; [eauto|discriminate].
+    + intros e ->. cbn [kstep] in Hs. apply andb_true_iff in Hs as [Hs _]. now apply ok_dexpr_kexpr.
+  - destruct (is_KD (kexpr SF B CD a) && ok_dexpr B CD b && src_nameb x && negb (mem_str x (map fst B)) && negb (mem_str x (used_e b)) && kstep SF ((x, KD) :: B) CD body step) eqn:Hc; [|discriminate].
+    rewrite !andb_true_iff in Hc. destruct Hc as [[[[[Ha Hb] _] _] _] Hs].
+    split; [now apply is_KD_eq|]. split; [now apply ok_dexpr_kexpr|]. exists ((x, KD) :: B). split.
+    + destruct (kblock SF true ((x, KD) :: B) CD body) as [rb|]; [eauto|discriminate].
+    + intros e ->. cbn [kstep] in Hs. apply andb_true_iff in Hs as [Hs _]. now apply ok_dexpr_kexpr.
+  - destruct (is_KD (kexpr SF B CD a) && is_KD (kexpr SF B CD b) && kstep SF B CD body step) eqn:Hc; [|discriminate].
+    rewrite !andb_true_iff in Hc. destruct Hc as [[Ha Hb] Hs].
+    split; [now apply is_KD_eq|]. split; [now apply is_KD_eq|]. exists B. split.
+    + destruct (kblock SF true B CD body) as [rb|]; [eauto|discriminate].
+    + intros e ->. cbn [kstep] in Hs. apply andb_true_iff in Hs as [Hs _]. now apply ok_dexpr_kexpr.
+Qed.
 
 (* ================================================================ the code, as functions of the syntax *)
-Definition fbl := list (str * nat * list instr).     (* the functions defined: name, register level of the body, code *)
+Definition fbl := list (str * nat * list instr).     (* the functions defined: name, register levels of the body (expression + loop registers), code *)
 Definition fbe (x : str * nat * list instr) : str * list instr := (fst (fst x), snd x).
 (* the end of a function body: `void; ret` unless the body ends with ret (callable.rs) *)
 Definition tailc (cb : list instr) : list instr :=
@@ -398,7 +490,7 @@ Fixpoint ec (d lr k : nat) (e : expr) {struct e} : list instr * fbl :=
       end in
     let '(cb, fb) := bc k body in
     let name := fn_name path (k + length fb) in
-    ([mkI OP_MAKE_FUNCTION (name :: free_vars ps body)], fb ++ [(name, S d, pcodeP 0 ps ++ strip cb ++ tailc (strip cb))])
+    ([mkI OP_MAKE_FUNCTION (name :: free_vars ps body)], fb ++ [(name, S d + lr, pcodeP 0 ps ++ strip cb ++ tailc (strip cb))])
   | _ => (pcode d e, [])
   end
 with sc (c lr : nat) (sl : option nat) (k : nat) (s : stmt) {struct s} : list citem * fbl :=
@@ -441,21 +533,27 @@ with sc (c lr : nat) (sl : option nat) (k : nat) (s : stmt) {struct s} : list ci
     let '(cb0, fb) := bc lr (Some 1) (k + length fc) body in
     let cb := cb0 ++ [I OP_JMP_POP [neg_off (1 + length cb0 + length cc)]] in
     (map CI cc ++ [I OP_WHILE_LOOP [sN (length cb + 1)]] ++ resolve (length cb) 0 0 cb, fc ++ fb)
-  | SFrom a b incl None (Some x) false body =>
-    let endr := lregn (S lr) in
-    let cond := [I OP_LOAD_FAST [x]; I OP_LOAD_FAST [endr]; I OP_BIN_OP [if incl then op_le else op_lt]] in
-    let '(cbody, fb) := bc (S lr) (Some 1) k body in
-    let cstep := [I OP_MAKE_INT [s_one]; I OP_BIN_OP_ASSIGN [[43; 61]%N; x]] in
+  | SFrom a b incl step name collide body =>
+    let idn := from_idn lr name in
+    let lr1 := from_lr1 lr name in
+    let endr := lregn (S lr1) in
+    let '(ca, fa) := ec c lr1 k a in
+    let '(cb_, fb) := ec c lr1 (k + length fa) b in
+    let cond := [I OP_LOAD_FAST [idn]; I OP_LOAD_FAST [endr]; I OP_BIN_OP [if incl then op_le else op_lt]] in
+    let '(cbody, fbd) := bc (S lr1) (Some 1) (k + length fa + length fb) body in
+    let '(cs, fs) := match step with
+                     | Some e => ec c (S lr1) (k + length fa + length fb + length fbd) e
+                     | None => ([mkI OP_MAKE_INT [s_one]], []) end in
+    let cstep := map CI cs ++ [I OP_BIN_OP_ASSIGN [[43; 61]%N; idn]] in
     let full0 := cbody ++ cstep in
     let full := full0 ++ [I OP_JMP_POP [neg_off (1 + length cond + length full0)]] in
-    (map CI (pcode c a) ++ [I OP_STORE_FAST [x]] ++ map CI (pcode c b) ++ [I OP_STORE_FAST [endr]] ++ cond
+    (map CI ca ++ [I (if collide then OP_STORE else OP_STORE_FAST) [idn]] ++ map CI cb_ ++ [I OP_STORE_FAST [endr]] ++ cond
        ++ [I OP_WHILE_LOOP [sN (length full + 1)]] ++ resolve (length full) (length cstep) 0 full
-       ++ [I OP_DELETE_NAME_SCOPED [x; endr]], fb)
+       ++ (if collide then [] else [I OP_DELETE_NAME_SCOPED [idn; endr]]), fa ++ fb ++ fbd ++ fs)
   | SBreak => ([CBrk (sln sl)], [])
   | SContinue => ([CCont (sln sl)], [])
   | SReturn None => ([I OP_RET []], [])
   | SReturn (Some e) => let '(ce, fe) := ec c lr k e in (map CI ce ++ [I OP_RET []], fe)
-  | _ => ([], [])
   end.
 
 Fixpoint bc (c lr : nat) (sl : option nat) (k : nat) (l : list stmt) {struct l} : list citem * fbl :=
@@ -523,7 +621,7 @@ Proof. intros. cbn [ec]. now rewrite eargs_fix. Qed.
 Lemma ec_EFn : forall d lr k ps body, ec d lr k (EFn ps body) =
   let fb := snd (bc (S d) lr None k body) in
   let name := fn_name path (k + length fb) in
-  ([mkI OP_MAKE_FUNCTION (name :: free_vars ps body)], fb ++ [(name, S d, fcode d lr k ps body)]).
+  ([mkI OP_MAKE_FUNCTION (name :: free_vars ps body)], fb ++ [(name, S d + lr, fcode d lr k ps body)]).
 Proof. intros. cbn [ec]. rewrite bc_fix1. unfold fcode. destruct (bc (S d) lr None k body) as [cb fb]. reflexivity. Qed.
 Lemma ec_EAnd : forall d lr k a b, ec d lr k (EAnd a b) =
   let '(ca, fa) := ec (S d) lr k a in
@@ -590,17 +688,27 @@ Lemma sc_SWhile : forall c lr sl k cnd body, sc c lr sl k (SWhile cnd body) =
   let cb := cb0 ++ [I OP_JMP_POP [neg_off (1 + length cb0 + length cc)]] in
   (map CI cc ++ [I OP_WHILE_LOOP [sN (length cb + 1)]] ++ resolve (length cb) 0 0 cb, fc ++ fb).
 Proof. intros. cbn [sc]. destruct (ec c lr k cnd) as [cc fc]. now rewrite bc_fix. Qed.
-Lemma sc_SFrom : forall c lr sl k a b incl x body, sc c lr sl k (SFrom a b incl None (Some x) false body) =
-  let endr := lregn (S lr) in
-  let cond := [I OP_LOAD_FAST [x]; I OP_LOAD_FAST [endr]; I OP_BIN_OP [if incl then op_le else op_lt]] in
-  let '(cbody, fb) := bc c (S lr) (Some 1) k body in
-  let cstep := [I OP_MAKE_INT [s_one]; I OP_BIN_OP_ASSIGN [[43; 61]%N; x]] in
+Definition stepc (c lr k : nat) (step : option expr) : list instr * fbl :=
+  match step with Some e => ec c lr k e | None => ([mkI OP_MAKE_INT [s_one]], []) end.
+Lemma sc_SFrom : forall c lr sl k a b incl step name collide body, sc c lr sl k (SFrom a b incl step name collide body) =
+  let idn := from_idn lr name in
+  let lr1 := from_lr1 lr name in
+  let endr := lregn (S lr1) in
+  let '(ca, fa) := ec c lr1 k a in
+  let '(cb_, fb) := ec c lr1 (k + length fa) b in
+  let cond := [I OP_LOAD_FAST [idn]; I OP_LOAD_FAST [endr]; I OP_BIN_OP [if incl then op_le else op_lt]] in
+  let '(cbody, fbd) := bc c (S lr1) (Some 1) (k + length fa + length fb) body in
+  let '(cs, fs) := stepc c (S lr1) (k + length fa + length fb + length fbd) step in
+  let cstep := map CI cs ++ [I OP_BIN_OP_ASSIGN [[43; 61]%N; idn]] in
   let full0 := cbody ++ cstep in
   let full := full0 ++ [I OP_JMP_POP [neg_off (1 + length cond + length full0)]] in
-  (map CI (pcode c a) ++ [I OP_STORE_FAST [x]] ++ map CI (pcode c b) ++ [I OP_STORE_FAST [endr]] ++ cond
+  (map CI ca ++ [I (if collide then OP_STORE else OP_STORE_FAST) [idn]] ++ map CI cb_ ++ [I OP_STORE_FAST [endr]] ++ cond
      ++ [I OP_WHILE_LOOP [sN (length full + 1)]] ++ resolve (length full) (length cstep) 0 full
-     ++ [I OP_DELETE_NAME_SCOPED [x; endr]], fb).
-Proof. intros. cbn [sc]. now rewrite bc_fix. Qed.
+     ++ (if collide then [] else [I OP_DELETE_NAME_SCOPED [idn; endr]]), fa ++ fb ++ fbd ++ fs).
+Proof.
+  intros. cbn [sc]. destruct (ec c (from_lr1 lr name) k a) as [ca fa]. destruct (ec c (from_lr1 lr name) (k + length fa) b) as [cb_ fb].
+  rewrite bc_fix. reflexivity.
+Qed.
 End Code.
 
 (* ================================================================ the code generator computes ec / sc on the fragment *)
@@ -872,21 +980,44 @@ Proof.
     destruct (bc path c (lreg st) (Some 1) (fid st + length fc) body) as [cb0 fb]. cbn [fst snd]. cbv zeta.
     rewrite stx_app, !map_length. split; [reflexivity|]. intros _. ci2.
   - (* SFrom *)
-    intros a b incl step name collide body _ _ _ IHb SF il B CD r Hk c sl st.
-    destruct step as [e|]; [discriminate|]. destruct name as [x|]; [|discriminate]. destruct collide; [discriminate|].
-    rewrite kstmt_SFrom in Hk.
-    destruct (ok_dexpr B CD a && ok_dexpr B CD b && src_nameb x && negb (mem_str x (map fst B)) && negb (mem_str x (used_e b))) eqn:Hc;
-      [|discriminate].
-    rewrite !andb_true_iff in Hc. destruct Hc as [[[[Ha Hb] _] _] _].
-    destruct (kblock SF true ((x, KD) :: B) CD body) as [[B' rb]|] eqn:Eb; [|discriminate].
+    intros a b incl step name collide body IHa IHb IHs IHbody SF il B CD r Hk c sl st.
+    destruct (kstmt_SFrom_parts SF il B CD a b incl step name collide body r Hk) as (Ea & Eb & Bb & [rb Ebody] & Estep).
     rewrite cstmt_SFrom, sc_SFrom.
-    rewrite (cexpr_pure path a (ok_dexpr_pure _ _ _ Ha)), (cexpr_pure path b (ok_dexpr_pure _ _ _ Hb)).
-    cbv zeta.
-    destruct (comp_block body IHb SF true _ CD _ Eb c (Some 1) {| fid := fid st; lreg := S (lreg st); fbuf := fbuf st |}) as [E1 _]. rewrite E1.
-    cbn [lreg fid].
-    destruct (bc path c (S (lreg st)) (Some 1) (fid st) body) as [cbody fb]. cbn [fst snd].
-    unfold stx. cbn [fid lreg fbuf length]. replace (S (lreg st) - 1) with (lreg st) by lia.
-    split; [reflexivity|]. intros _. ci2.
+    destruct name as [x|]; cbn [from_idn from_lr1]; cbv zeta.
+    + rewrite (IHa SF B CD _ Ea c st). destruct (ec path c (lreg st) (fid st) a) as [ca fa]. cbn [fst snd].
+      pose proof (IHb SF B CD _ Eb c (stx st fa)) as E2. rewrite stx_lreg, stx_fid in E2. rewrite E2. clear E2.
+      destruct (ec path c (lreg st) (fid st + length fa) b) as [cb_ fb]. cbn [fst snd].
+      rewrite ?stx_lreg, ?stx_fid.
+      match goal with |- context [cblockT path c (Some 1) body ?ST] =>
+        destruct (comp_block body IHbody SF true Bb CD _ Ebody c (Some 1) ST) as [E3 _]; cbn [lreg fid] in E3; rewrite E3; clear E3 end.
+      destruct (bc path c (S (lreg st)) (Some 1) (fid st + length fa + length fb) body) as [cbody fbd]. cbn [fst snd].
+      destruct step as [e|]; cbn [stepc].
+      * match goal with |- context [cexpr path c e ?ST] =>
+          pose proof (IHs e eq_refl SF Bb CD _ (Estep e eq_refl) c ST) as E4 end.
+        rewrite stx_lreg, stx_fid in E4. cbn [lreg fid] in E4. rewrite E4. clear E4.
+        destruct (ec path c (S (lreg st)) (fid st + length fa + length fb + length fbd) e) as [cs fs]. cbn [fst snd].
+        split; [|intros _; destruct collide; ci2]. f_equal.
+        unfold stx. cbn [fid lreg fbuf]. f_equal; [rewrite !app_length; lia|lia|rewrite !map_app, <- !app_assoc; reflexivity].
+      * cbn [fst snd map]. split; [|intros _; destruct collide; ci2]. f_equal.
+        unfold stx. cbn [fid lreg fbuf]. f_equal; [rewrite !app_length; cbn [length]; lia|lia|rewrite !map_app, <- !app_assoc; cbn [map]; now rewrite app_nil_r].
+    + set (st1 := {| fid := fid st; lreg := S (lreg st); fbuf := fbuf st |}).
+      pose proof (IHa SF B CD _ Ea c st1) as E1. cbn [st1 lreg fid] in E1. fold st1 in E1. rewrite E1. clear E1.
+      destruct (ec path c (S (lreg st)) (fid st) a) as [ca fa]. cbn [fst snd].
+      pose proof (IHb SF B CD _ Eb c (stx st1 fa)) as E2. rewrite stx_lreg, stx_fid in E2. cbn [st1 lreg fid] in E2. fold st1 in E2. rewrite E2. clear E2.
+      destruct (ec path c (S (lreg st)) (fid st + length fa) b) as [cb_ fb]. cbn [fst snd].
+      rewrite ?stx_lreg, ?stx_fid. cbn [st1 lreg fid]. fold st1.
+      match goal with |- context [cblockT path c (Some 1) body ?ST] =>
+        destruct (comp_block body IHbody SF true Bb CD _ Ebody c (Some 1) ST) as [E3 _]; cbn [lreg fid] in E3; rewrite E3; clear E3 end.
+      destruct (bc path c (S (S (lreg st))) (Some 1) (fid st + length fa + length fb) body) as [cbody fbd]. cbn [fst snd].
+      destruct step as [e|]; cbn [stepc].
+      * match goal with |- context [cexpr path c e ?ST] =>
+          pose proof (IHs e eq_refl SF Bb CD _ (Estep e eq_refl) c ST) as E4 end.
+        rewrite stx_lreg, stx_fid in E4. cbn [lreg fid] in E4. rewrite E4. clear E4.
+        destruct (ec path c (S (S (lreg st))) (fid st + length fa + length fb + length fbd) e) as [cs fs]. cbn [fst snd].
+        split; [|intros _; destruct collide; ci2]. f_equal.
+        unfold stx. cbn [st1 fid lreg fbuf]. f_equal; [rewrite !app_length; lia|lia|rewrite !map_app, <- !app_assoc; reflexivity].
+      * cbn [fst snd map]. split; [|intros _; destruct collide; ci2]. f_equal.
+        unfold stx. cbn [st1 fid lreg fbuf]. f_equal; [rewrite !app_length; cbn [length]; lia|lia|rewrite !map_app, <- !app_assoc; cbn [map]; now rewrite app_nil_r].
   - (* SBreak *) intros SF il B CD r Hk c sl st. cbn [kstmt] in Hk. destruct il; [|discriminate]. cbn [cstmt sc fst snd]. rewrite stx_nil.
     split; [reflexivity|discriminate].
   - (* SContinue *) intros SF il B CD r Hk c sl st. cbn [kstmt] in Hk. destruct il; [|discriminate]. cbn [cstmt sc fst snd]. rewrite stx_nil.
